@@ -103,7 +103,7 @@ func init() {
 		Assumptions: ledgerAssumptions,
 		QuickRuns:   700, ThoroughRuns: 12000,
 		GenConfig: ledgerConfig,
-		GenPlan: ledgerPlan(LedgerGenOpts{DowntimeBursts: true, Evidence: true, EpochJumps: true, Replays: true, BigAmounts: true,
+		GenPlan: ledgerPlan(LedgerGenOpts{DirectSlashes: true, DowntimeBursts: true, Evidence: true, EpochJumps: true, Replays: true, BigAmounts: true,
 			W: map[string]int{"dep": 8, "wd": 2, "del": 14, "und": 10, "assoc": 4, "dissoc": 3, "ndel": 3, "nund": 3, "optin": 1, "optout": 1, "setkey": 1, "unjail": 1}}),
 		Monitors: func() []Monitor { return []Monitor{&c02Monitor{}} },
 		NonTrivial: func(r *Run) bool {
